@@ -22,6 +22,8 @@ pub const PRELUDE: &str = r#"
 #[derive(Debug, Clone, PartialEq)] pub struct C(pub u32);
 #[derive(Debug, Clone, PartialEq)] pub struct D(pub u64);
 #[derive(Debug, Clone, PartialEq)] pub struct W<T>(pub T, pub u8);
+// a second type called `A`, in a module of its own: `A` and `sub::A` are different TryInto targets (seed C11-k)
+pub mod sub { #[derive(Debug, Clone, PartialEq)] pub struct A(pub u32); }
 pub fn lk(n: u32) -> &'static A { Box::leak(Box::new(A(n))) }
 pub fn addr<T>(r: &T) -> usize { r as *const T as usize }
 pub fn ck(o: &mut Out, what: &str, i: usize, exp: String, got: String) {
@@ -41,7 +43,7 @@ const KINDS: [&str; 3] = ["owned", "ref", "ref_mut"];
 const AVOID_VARIANT_LEVEL_REF_UNWRAP: bool = true;
 
 /// (declared type, type in the instantiation `EC`, generic parameters used: 1 = T, 2 = 'a, 4 = N, 8 = 'b)
-const TYS: [(&str, &str, u8); 9] = [
+const TYS: [(&str, &str, u8); 10] = [
     ("A", "A", 0),
     ("B", "B", 0),
     ("C", "C", 0),
@@ -51,6 +53,7 @@ const TYS: [(&str, &str, u8); 9] = [
     ("&'a A", "&'static A", 2),
     ("[A; N]", "[A; 2]", 4),
     ("&'b A", "&'static A", 8),
+    ("sub::A", "sub::A", 0),
 ];
 
 fn value_of(ty: usize, n: usize) -> String {
@@ -62,6 +65,7 @@ fn value_of(ty: usize, n: usize) -> String {
         4 => format!("W(C({n}), 7)"),
         5 => format!("C({n})"),
         6 | 8 => format!("lk({n})"),
+        9 => format!("sub::A({n})"),
         _ => format!("[A({n}), A({})]", n + 100),
     }
 }
@@ -391,7 +395,7 @@ fn gen_model(d: &mut Dice) -> Model {
                 if i == 5 && has_ti && !ignored {
                     return 0;
                 }
-                [5, 4, 2, 1, 4, 4, 4, 4, 4][i]
+                [5, 4, 2, 1, 4, 4, 4, 4, 4, 5][i]
             })
             .collect();
         d.weighted(&w)
@@ -809,6 +813,14 @@ fn render(m: &Model) -> GenCase {
     let name_derives = m.derives.iter().any(|k| *k < 3);
     if shared_tuple {
         labels.push("shared_field_type_tuple".into());
+    }
+    // two TryInto targets that differ only in the module path of a type (`A` / `sub::A`)
+    if m.has(3) {
+        let last_seg = |t: Vec<usize>| -> Vec<usize> { t.into_iter().map(|i| if i == 9 { 0 } else { i }).collect() };
+        let tys: Vec<Vec<usize>> = m.vars.iter().map(|v| v.ti_types()).collect();
+        if tys.iter().enumerate().any(|(i, a)| tys.iter().skip(i + 1).any(|b| a != b && last_seg(a.clone()) == last_seg(b.clone()))) {
+            labels.push("try_into_targets_differ_in_path_only".into());
+        }
     }
     if any_ignore {
         labels.push("variant_ignore".into());
